@@ -18,7 +18,22 @@ Definition parse_op (s : bytes) : option op :=
       let n0 := match ps with a :: _ => nat_of_dec a | [] => None end in
       let n1 := match ps with _ :: b :: _ => nat_of_dec b | _ => None end in
       if beq c "k"%byte then match n0, n1 with Some n, Some h => Some (ONew n h HConn) | _, _ => None end
-      else if beq c "p"%byte then match n0, n1 with Some n, Some h => Some (ONew n h HProxy) | _, _ => None end
+      else if beq c "p"%byte then
+        match n0, n1 with
+        | Some n, Some h =>
+            match ps with
+            | [_; _] => Some (ONew n h (HProxy CIdle))
+            | [_; _; m] => if lbeq m (B "n") then Some (ONew n h (HProxy CNo)) else if lbeq m (B "l") then Some (ONew n h (HProxy CIdle))
+                           else if lbeq m (B "e") then Some (ONew n h (HProxy CRun)) else None
+            | _ => None
+            end
+        | _, _ => None
+        end
+      else if beq c "b"%byte then match n0, n1 with Some n, Some h => Some (ONew n h HBlocking) | _, _ => None end
+      else if beq c "c"%byte then option_map OCacheStart n0
+      else if beq c "v"%byte then option_map OCacheStart n0
+      else if beq c "a"%byte then option_map OCacheReady n0
+      else if beq c "D"%byte then option_map OAsyncDrop n0
       else if beq c "g"%byte then match n0, n1 with Some n, Some h => Some (ONew n h HSignals) | _, _ => None end
       else if beq c "s"%byte then
         match n0, n1, ps with
@@ -54,6 +69,7 @@ Fixpoint quiesce (fuel : nat) (rel : list nat) (s : st) : st :=
       | S _, _ => quiesce f rel (try_step LRemover s)
       | O, _ :: _ => quiesce f rel (try_step LDispatch s)
       | O, [] =>
+          match zombies s with _ :: _ => quiesce f rel (try_step LReap s) | [] =>
           match find (fun k => mem_n k rel) (inflight s) with
           | Some k => quiesce f rel (try_step (LReply k) s)
           | None =>
@@ -62,7 +78,7 @@ Fixpoint quiesce (fuel : nat) (rel : list nat) (s : st) : st :=
                    | n :: _ => quiesce f rel (try_step (LWake n) s)
                    | [] => if reader s then quiesce f rel (try_step LReaderDrop s) else s
                    end
-          end
+          end end
       end
   end.
 
@@ -70,7 +86,12 @@ Definition fuel0 : nat := 32 * 32.
 
 Definition apply_op (o : op) (rel : list nat) (s : st) : list nat * st :=
   match o with
+  | ONew n src (HProxy CRun) =>      (* CacheProperties::Yes: build() starts the cache and waits for it *)
+      (rel, try_step (LCacheReady n) (try_step (LCacheStart n) (try_step (LNew n src (HProxy CIdle)) s)))
   | ONew n src k => (rel, try_step (LNew n src k) s)
+  | OAsyncDrop n => (rel, try_step (LAsyncDrop n) s)
+  | OCacheStart n => (rel, try_step (LCacheStart n) s)
+  | OCacheReady n => (rel, try_step (LCacheReady n) s)
   | ODrop n => (rel, try_step (LDrop n) s)
   | OGraceful n => (rel, try_step (LGraceful n) s)
   | OClose n => (rel, try_step (LCloseCall n) s)
